@@ -174,3 +174,28 @@ Theorem C15_anim_single_frame_drops_metadata :
   anim_close true 1 true true wit_anim_with_meta (Some wit_anim_simple) = wit_anim_with_meta.
 Proof. exact anim_single_frame_drops_metadata. Qed.
 Print Assumptions C15_anim_single_frame_drops_metadata.
+
+(** Metadata independence of the pixel encoders, from the translator's field-use
+    analysis of the root package (Gen/MetaUse.v, regenerated from /repo on every
+    run): every function reachable in the package's call graph from
+    encodeLossyWithAlpha / encodeLossless / encodeLosslessToWriter is a declared
+    function, mentions none of EncoderOptions.ICC / EXIF / XMP and hands no
+    EncoderOptions value to code the analysis cannot see; the only functions that
+    mention the metadata are Encode, validateConfig and writeRIFF (the ones the
+    models of this property cover). *)
+From Coq Require Import String.
+From Webp Require Riff.WriterMetaUse.
+From WebpGen Require MetaUse.
+Theorem C15_pixel_encoders_ignore_metadata : forall f,
+  WriterMetaUse.Reach MetaUse.call_graph MetaUse.pixel_encoder_roots f ->
+  In f (map fst MetaUse.call_graph) /\
+  ~ In f (map fst MetaUse.meta_touch) /\ ~ In f (map fst MetaUse.meta_escape).
+Proof. exact WriterMetaUse.pixel_encoders_ignore_metadata. Qed.
+Print Assumptions C15_pixel_encoders_ignore_metadata.
+
+Theorem C15_metadata_readers_are_modelled :
+  map fst MetaUse.meta_touch = ["Encode"; "validateConfig"; "writeRIFF"]%string /\
+  MetaUse.meta_fields = ["ICC"; "EXIF"; "XMP"]%string.
+Proof. exact WriterMetaUse.metadata_readers_are_modelled. Qed.
+Print Assumptions C15_metadata_readers_are_modelled.
+
